@@ -1556,19 +1556,19 @@ class Function:
 
     def _apply(self, argl):
         frm, to = [], []
-        for i, a in zip(self.ins, argl):
+        for pos, (i, a) in enumerate(zip(self.ins, argl)):
             a = _coerce(a)
             if a.shape != i.shape:
                 if a.numel() == 1 and i.numel() > 0:
                     a = repmat(a, i.rows, i.cols)
-                elif a.numel() == 0 and i.numel() == 0:
-                    continue
+                elif i.numel() == 0 and a.numel() <= 1:
+                    continue        # a scalar (or empty) for an empty input is accepted and ignored
                 elif a.numel() == i.numel() and a.shape == (i.cols, i.rows) and a.is_vector():
                     a = a.T
                 elif i.numel() > 0 and a.rows == i.rows and a.cols % i.cols == 0 and i.cols == 1:
                     raise Undecided("Function map-call with %d columns" % a.cols)
                 else:
-                    raise RuntimeError("Function %s: input '%s' has shape %s, expected %s" % (self._name, self.names_in[self.ins.index(i)], a.shape, i.shape))
+                    raise RuntimeError("Function %s: input '%s' has shape %s, expected %s" % (self._name, self.names_in[pos], a.shape, i.shape))
             if i.numel() == 0:
                 continue
             frm.append(i)
